@@ -13,9 +13,11 @@ ScriptQ == {S(<<ok>>, "base"), S(<<>>, "no"), S(<<ok, er>>, "no"), S(<<>>, "exc"
 ScriptsQ == [1..2 -> ScriptQ]
 \* thorough: 3 workers, 1 worker with 3 tests, 4 small workers
 ScriptT == {S(<<>>, "no"), S(<<ok>>, "no"), S(<<>>, "exc")}
-Scripts3 == [1..3 -> ScriptT \cup {S(<<ok, er>>, "no")}]
-Scripts4 == [1..4 -> {S(<<>>, "no"), S(<<ok>>, "no")}] \cup {<<S(<<ok>>, "exc"), S(<<>>, "exc"), S(<<>>, "no"), S(<<er>>, "no")>>}
-Scripts13 == [1..1 -> {S(<<ok, er, ok>>, "no"), S(<<ok, er, ok>>, "exc")}] \cup [1..2 -> {S(<<ok, er, ok>>, "no"), S(<<ok>>, "exc")}]
+Scripts3 == [1..3 -> ScriptT]
+Special3 == { <<S(<<ok>>, "no"), S(<<>>, "exc"), S(<<>>, "no")>>, <<S(<<>>, "no"), S(<<ok>>, "no"), S(<<ok>>, "no")>> }
+Scripts4 == { <<S(<<>>, "no"), S(<<>>, "no"), S(<<>>, "no"), S(<<>>, "no")>>, <<S(<<>>, "no"), S(<<>>, "no"), S(<<>>, "no"), S(<<ok>>, "no")>>,
+              <<S(<<ok>>, "no"), S(<<>>, "exc"), S(<<>>, "no"), S(<<ok>>, "no")>> }
+Scripts13 == [1..1 -> {S(<<ok, er, ok>>, "no"), S(<<ok, er, ok>>, "exc")}] \cup { <<S(<<ok, er, ok>>, "no"), S(<<>>, "exc")>> }
 \* export instances
 ScriptsXq == { <<S(<<ok>>, "exc")>>, <<S(<<>>, "no"), S(<<>>, "no")>> }
 ScriptsX == { <<S(<<ok>>, "no")>>, <<S(<<>>, "no"), S(<<>>, "no")>> }
@@ -26,6 +28,8 @@ NoFaults(s) == {<<NoFault, NoFault>>}
 OneFault(s) == {<<NoFault, NoFault>>} \cup {<<k, NoFault>> : k \in 0..Len(s)} \cup {<<NoFault, j>> : j \in 0..Len(s)}
 ExpFaults(s) == {<<NoFault, NoFault>>, <<Len(s), NoFault>>, <<NoFault, 1>>}
 ExpFaultsQ(s) == IF Len(s) = 1 THEN ExpFaults(s) ELSE {<<NoFault, NoFault>>}
+Faults3(s) == IF s \in Special3 THEN OneFault(s) ELSE NoFaults(s)
+Faults4(s) == IF s[4].tests = <<>> THEN OneFault(s) ELSE NoFaults(s)
 AnyFaults(s) == {<<k, j>> : k \in {NoFault} \cup (0..Len(s)), j \in {NoFault} \cup (0..Len(s))}
 
 MCInit == \E s \in Scripts : \E f \in FaultChoices(s) : InitWith(s, f[1], f[2])
